@@ -198,12 +198,16 @@ def memberOfSexp : Sexp → Option (Nat × Nat × Types.Ty)
 /-- `(addr local|param <type> (<step>...) (<struct> <member> <type>)...)`: the instructions of `generate_storage_address` -/
 def addrOp : Sexp → String
   | .list (.atom "addr" :: .atom kind :: t :: .list path :: members) =>
-    match Types.tyOfSexp 32 t, path.mapM ustepOfSexp, members.mapM memberOfSexp with
+    -- trailing `d` atoms: the Autoderefs that an access through a pointer leaf appends
+    let trail := (path.reverse.takeWhile (fun x => match x with | .atom "d" => true | _ => false)).length
+    match Types.tyOfSexp 32 t, (path.take (path.length - trail)).mapM ustepOfSexp, members.mapM memberOfSexp with
     | some ty, some p, some tbl =>
       let ms : Types.Ty.Members := fun i m => (tbl.find? (fun x => x.1 == i && x.2.1 == m)).map (·.2.2)
       match Gen.Addr.elaborateG ms ty p with
       | none => "noelab"
-      | some (steps, leaf) =>
+      | some (steps0, leaf0) =>
+        let steps := steps0 ++ List.replicate trail (Gen.Addr.GStep.auto false)
+        let leaf := (List.range trail).foldl (fun (t : Types.Ty) _ => match t with | .pointer d => d | t => t) leaf0
         let fs := Gen.Addr.lowerFields ms
         let r := if kind == "param" then Gen.Addr.runT fs (Gen.Addr.lower ty) [] true steps
                  else Gen.Addr.runT fs (.ptr (Gen.Addr.lower ty)) [some 0] false steps
